@@ -104,7 +104,7 @@ func cmdCheck(args []string) int {
 			nw = 12
 		}
 	}
-	work := filepath.Join(verifRoot, "work", prop+"-"+*tier)
+	work := filepath.Join(outRoot, "work", prop+"-"+*tier)
 	os.RemoveAll(work)
 	os.MkdirAll(work, 0o755)
 	defer func() {
@@ -270,7 +270,7 @@ func cmdCheck(args []string) int {
 	}
 
 	// ---- replays: counterexamples and translator validation ----
-	replayDir := filepath.Join(verifRoot, "replay")
+	replayDir := filepath.Join(outRoot, "replay")
 	os.MkdirAll(replayDir, 0o755)
 	old, _ := filepath.Glob(filepath.Join(replayDir, prop+"-*"))
 	for _, f := range old {
